@@ -26,6 +26,28 @@ pub fn resolve(name: &str) -> Option<(&'static str, iso::RunCase)> {
 
 /// Build the universe of a family before the address-space cap is applied.
 pub fn warm(name: &str, thorough: bool) {
+    // touch the lazily built registries (dictionary, transfer syntaxes, ...) once, so that forked
+    // children do not rebuild them: a benign run of every kind of entry point on valid input
+    {
+        let mut cx = Ctx::new("warm", thorough);
+        let what = || String::new();
+        let meta = vx_ref::ds::std_meta("1.2.840.10008.1.2.1", "1.2.840.10008.5.1.4.1.1.7", "1.2.3.4");
+        let ds = [vx_ref::ds::RElem::prim((0x0010, 0x0010), "PN", b"A^B"), vx_ref::ds::RElem::prim((0x0028, 0x0010), "US", &[1, 0])];
+        let f = vx_ref::ds::encode_file(true, &meta, vx_ref::ds::Ts::ExplicitLE, &ds);
+        eps::file_eps(&mut cx, &f, "warm", &what, eps::Depth::Lean, false);
+        for ti in 0..3 {
+            eps::dataset_eps(&mut cx, ti, &vx_ref::ds::encode_items(vx_ref::ds::Ts::ALL[ti], &ds), &what, eps::Depth::Lean);
+        }
+        eps::json_eps(&mut cx, br#"{"00100010":{"vr":"PN","Value":[{"Alphabetic":"A"}]}}"#, "warm", &what);
+        eps::pdu_eps(&mut cx, &[5, 0, 0, 0, 0, 4, 0, 0, 0, 0], "warm", &what, true);
+        for p in 0..eps::STRING_PARSERS.len() {
+            eps::string_ep(&mut cx, p, b"PatientName", &what);
+        }
+        for (uid, _) in pixobj::DECODER_TS {
+            let o = pixobj::pixel_object(uid, &pixobj::PixAttrs::of(1, 1, 8, 1, 1), &pixobj::PixVal::Frags { offsets: vec![], frags: vec![vec![0, 0]] });
+            eps::pixel_eps(&mut cx, &o, "warm", "warm", &what, b"");
+        }
+    }
     match name {
         "words" => {
             words::universe(thorough);
